@@ -36,6 +36,7 @@ instance : Elem DualF where
   abs a := ⟨Float.abs a.v, if a.v < 0 then -a.d else a.d⟩
   atan a := ⟨Float.atan a.v, a.d / (1 + a.v * a.v)⟩
   acos a := ⟨Float.acos a.v, -a.d / Float.sqrt (1 - a.v * a.v)⟩
+  pi := ⟨3.141592653589793, 0⟩
 end DualF
 
 end OAS
